@@ -12,6 +12,7 @@ var refluaAssume = "the reference Lua front end /verif/reflua (lexer, parser, bi
 var tiers = map[string][3]int{
 	"C02": {1500, 12000, 0},
 	"C03": {8000, 150000, 240},
+	"C05": {1200, 20000, 0},
 }
 
 func tierOf(id string, thorough bool) tierCfg {
@@ -30,5 +31,9 @@ func init() {
 	props["C03"] = propCfg{
 		Rule:        "luagen generates programs valid by construction (all statement kinds, all operators, attribs, goto/labels, method definitions, varargs, every numeral and string form incl. hex floats, huge exponents, LL/ULL, \\z, \\u{}, long brackets of level 0-2) and, for two thirds of the cases, one single-token mutation (delete, duplicate, swap, substitute by keyword/operator); rendered with a layout generator (spaces, tabs, \\v, \\f, LF/CRLF/CR, short and long comments with ASCII/BMP/astral text, optional shebang). Oracle: the reference recogniser reflua classifies the text valid / invalid / context-only; the parser must report >=1 error iff invalid and 0 errors if valid; 5% of the cases also go through a full LSP session (type-1 diagnostics iff parser errors). Non-trivial: a valid text with >= 8 tokens and >= 1 rare feature, or an invalid text that is a single-token mutant of a valid one; distinct by text.",
 		Assumptions: append([]string{refluaAssume, "context-only programs (break outside loop, goto without label, ... outside vararg, unknown attribute) and texts with bytes >= 0x80 outside strings/comments are don't-care"}, commonAssume...),
+	}
+	props["C05"] = propCfg{
+		Rule:        "luagen generates 1-3-file workspaces (tiny name pool a..e to force shadowing, redeclaration in the same block, sibling-scope reuse, upvalues, parameters, loop variables, local function recursion, repeat-until reads, method definitions, globals defined in one file and read in another; simple one-statement-per-line layout); textDocument/definition is asked at the first and the last character of every variable occurrence. Oracle: the reference binder — a bound occurrence must yield exactly the declaring identifier's range, a global with defining assignments in the workspace a non-empty set of such assignments, anything else nothing. Non-trivial: a workspace with a queried name declared at least twice in its file, an upvalue, or a cross-file global; distinct by workspace text.",
+		Assumptions: append([]string{refluaAssume, "don't-care: self, _G, _ENV, built-in library names, field names, labels"}, commonAssume...),
 	}
 }
